@@ -57,6 +57,13 @@ try:
       kind = next((l for l in lines if l.startswith('violation kind=')), '')
       res['check:' + c] = {'exit': r.returncode, 'wall': round(time.time() - t0, 1),
                            'kind': kind[:160]}
+      vio = next((l for l in lines if l.startswith('VIOLATION ')), '')
+      if 'replay=out/' in vio:
+        # keep the shrunk failing case next to the seed (it passes on /repo and can be promoted
+        # to a committed corner replay)
+        path = os.path.join('/verif', vio.split('replay=')[1].strip())
+        if os.path.exists(path):
+          shutil.copy(path, os.path.join(seed, f'found_by_{c}.json'))
 finally:
   shutil.rmtree(d, ignore_errors=True)
 print(json.dumps(res))
